@@ -126,6 +126,19 @@ func sortStrings(xs []string) {
 }
 
 func (g *ogen) failing() onode {
+	if g.r.Chance(15) {
+		// the caller's content fails below nested includes: still an error with the position of the
+		// failing action, after everything rendered so far
+		g.nblock++
+		bn := fmt.Sprintf("fblk%d", g.nblock)
+		g.nfile++
+		i1, i2 := fmt.Sprintf("/fci%da.jet", g.nfile), fmt.Sprintf("/fci%db.jet", g.nfile)
+		g.p.files[i1] = fmt.Sprintf("{{ w := 1 }}{{include %q}}", i2)
+		g.p.files[i2] = "<{{yield content}}>"
+		g.lib += fmt.Sprintf("{{block %s()}}[{{include %q}}]{{end}}", bn, i1)
+		pre := "{{yield " + bn + "() content}}C"
+		return onode{src: pre + "{{ nope }}{{end}}", out: "[<C", failOff: len(pre)}
+	}
 	act := g.r.Pick([]string{"{{ nope }}", "{{ ia / zero }}", "{{ li[9] }}", "{{ st.Missing }}", "{{ np.A }}", "{{ fail(\"x\") }}", "{{yield nosuchblock()}}", "{{include \"/absent.jet\"}}", "{{ sa - 1 }}", "{{ li[1:9] }}", "{{range ia}}x{{end}}", "{{ upper(_) }}",
 		"{{ cat(\"a\", _) }}", "{{ cat(\"a\", \"b\", _) }}", "{{ add3(1, _, 2) }}", "{{ add3(1, 2) }}", "{{ add3(1, 2, 3, 4) }}", "{{ sa() }}", "{{ st.A() }}",
 		"{{ ident(n) }}", "{{ sa | nope }}", "{{ upper(ia, ia) }}", "{{ repeat(sa, sa) }}", "{{ len() }}", "{{ map(\"k\") }}", "{{ ints(3, 1) }}", "{{ li[sa] }}", "{{ m.k.x.y }}", "{{ -sa }}",
@@ -347,7 +360,16 @@ func (g *ogen) node(d int, allowFail bool) onode {
 			return g.text()
 		}
 		probe := onode{src: "[{{.}}]", out: "[" + g.ctxOut + "]", failOff: -1}
-		switch r.Intn(8) {
+		switch r.Intn(9) {
+		case 8: // caller content failing below nested includes: every scope in between is released properly
+			g.nblock++
+			bn := fmt.Sprintf("nblk%d", g.nblock)
+			g.nfile++
+			i1, i2 := fmt.Sprintf("/nci%da.jet", g.nfile), fmt.Sprintf("/nci%db.jet", g.nfile)
+			g.p.files[i1] = fmt.Sprintf("{{ w := 1 }}{{include %q}}", i2)
+			g.p.files[i2] = "{{if true}}{{ z9 := 2 }}{{yield content}}{{end}}"
+			g.lib += fmt.Sprintf("{{block %s()}}[{{include %q}}]{{end}}", bn, i1)
+			return cat(onode{src: "{{try}}{{yield " + bn + "() content}}C{{ nope }}{{end}}{{catch}}c{{end}}{{ isset(w, z9) }}", out: "c" + g.E("false"), failOff: -1}, probe)
 		case 0:
 			return cat(onode{src: "{{range k := li}}{{k}}{{end}}", out: g.E(0) + g.E(1) + g.E(2), failOff: -1}, probe)
 		case 1:
